@@ -86,8 +86,27 @@ _NP_ORDER_FUNCS = {"array", "asarray", "argmin", "argmax", "min", "max", "amin",
 
 
 class _Closure:
-    def __init__(self, fn, env, ev, self_obj=None):
+    def __init__(self, fn, env, ev, self_obj=None, module=None):
         self.fn, self.env, self.ev, self.self_obj = fn, env, ev, self_obj
+        self.module = module if module is not None else ev.module
+
+
+class TransNode:
+    """Transformed(base_dist, bijection)"""
+
+    def __init__(self, base, bijection):
+        self.base, self.bijection = base, bijection
+
+    def __repr__(self):
+        return f"Transformed({self.base!r}, {self.bijection!r})"
+
+
+class BaseLeaf:
+    def __init__(self, name):
+        self.name = name
+
+    def __repr__(self):
+        return self.name
 
 
 class _TypeTok:
@@ -108,7 +127,8 @@ class _ContinueL(Exception):
     pass
 
 
-CHAIN_T, WRAP_T = _TypeTok("Chain"), _TypeTok("AbstractUnwrappable")
+CHAIN_T, WRAP_T, TRANS_T = _TypeTok("Chain"), _TypeTok("AbstractUnwrappable"), _TypeTok("AbstractTransformed")
+CHAIN_Q, ATRANS_Q = "flowjax.bijections.chain.Chain", "flowjax.distributions.AbstractTransformed"
 _SAFE_BUILTINS = {
     "list": list, "tuple": tuple, "reversed": lambda x: list(reversed(x)), "len": len, "any": any, "all": all,
     "enumerate": lambda *a: list(enumerate(*a)), "range": range, "zip": lambda *a, **k: list(zip(*a)), "iter": iter,
@@ -129,9 +149,16 @@ class Evaluator:
         return self.apply(_Closure(self.module.functions[name], {}, self), list(args), kwargs or {})
 
     # ------------------------------------------------------------------ entry
-    def call_method(self, node: ChainNode, name: str, args=(), kwargs=None):
-        owner, fn = self.prog.method(self.cls.qualname, name)
-        return self.apply(_Closure(fn, {}, self, node), list(args), kwargs or {})
+    def call_method(self, node, name: str, args=(), kwargs=None):
+        return self.apply(self.bound_method(node, name), list(args), kwargs or {})
+
+    def class_of(self, node):
+        return self.prog.cls(CHAIN_Q if isinstance(node, ChainNode) else ATRANS_Q)
+
+    def bound_method(self, node, name):
+        k = self.class_of(node)
+        owner, fn = self.prog.method(k.qualname, name)
+        return _Closure(fn, {}, self, node, module=owner.module)
 
     # ------------------------------------------------------------------ calls
     def apply(self, clo: _Closure, args, kwargs):
@@ -162,6 +189,14 @@ class Evaluator:
                 env[p_.arg] = self.ev(d, clo.env)
             else:
                 raise Unsupported(f"missing keyword argument {p_.arg}")
+        saved = self.module
+        self.module = clo.module
+        try:
+            return self._run(fn, env)
+        finally:
+            self.module = saved
+
+    def _run(self, fn, env):
         if isinstance(fn, ast.Lambda):
             return self.ev(fn.body, env)
         is_gen = any(isinstance(n, (ast.Yield, ast.YieldFrom)) for n in _own_nodes(fn))
@@ -297,10 +332,17 @@ class Evaluator:
         elif isinstance(st, ast.Raise):
             e = st.exc.func if isinstance(st.exc, ast.Call) else st.exc
             raise Raised(ast.unparse(e) if e is not None else "re-raise")
-        elif isinstance(st, (ast.Import, ast.ImportFrom)):
+        elif isinstance(st, ast.Import):
             for al in st.names:
-                env[(al.asname or al.name).split(".")[0]] = ("module", (getattr(st, "module", None) or al.name) +
-                                                              ("." + al.name if isinstance(st, ast.ImportFrom) else ""))
+                if al.asname:
+                    env[al.asname] = self.qualified(al.name)
+                else:
+                    env[al.name.split(".")[0]] = ("module", al.name.split(".")[0])
+        elif isinstance(st, ast.ImportFrom):
+            if st.level:
+                raise Unsupported("relative import inside a function")
+            for al in st.names:
+                env[al.asname or al.name] = self.qualified(f"{st.module}.{al.name}")
         else:
             raise Unsupported(f"statement {type(st).__name__}")
 
@@ -319,7 +361,7 @@ class Evaluator:
             return bool(v)
         if isinstance(v, ChainNode):
             return len(v.children) > 0    # Chain defines __len__
-        if isinstance(v, (Leaf, Unwrapped)):
+        if isinstance(v, (Leaf, Unwrapped, TransNode, BaseLeaf)):
             return True
         raise Unsupported(f"truth value of {type(v).__name__}")
 
@@ -331,10 +373,10 @@ class Evaluator:
     def resolve_name(self, name, env):
         if name in env:
             return env[name]
-        if self.cls is not None and name == self.cls.name:
-            return CHAIN_T
+        if name in self.module.classes:
+            return self.qualified(self.module.classes[name].qualname)
         if name in self.module.functions:
-            return _Closure(self.module.functions[name], {}, self)
+            return _Closure(self.module.functions[name], {}, self, module=self.module)
         q = self.module.aliases.get(name)
         if q:
             return self.qualified(q)
@@ -343,9 +385,19 @@ class Evaluator:
         raise Unsupported(f"name {name}")
 
     def qualified(self, q):
+        try:
+            r = self.prog.lookup(q)      # follow re-exports (flowjax.bijections.Chain -> flowjax.bijections.chain.Chain)
+        except Exception:  # noqa: BLE001
+            r = None
+        if r and r[0] == "class":
+            q = r[1].qualname
         last = q.rsplit(".", 1)[-1]
-        if (self.cls is not None and q == self.cls.qualname) or q.endswith(".Chain"):
+        if r and r[0] == "func" and last != "unwrap":
+            return _Closure(r[2], {}, self, module=r[1])
+        if q == CHAIN_Q:
             return CHAIN_T
+        if q in (ATRANS_Q, "flowjax.distributions.Transformed"):
+            return TRANS_T if q == ATRANS_Q else ("builtin", "Transformed")
         if q in ("jax.numpy", "numpy", "jax"):
             return ("module", q)
         if q.startswith(("jax.numpy.", "numpy.")) and last in _NP_ORDER_FUNCS:
@@ -480,16 +532,8 @@ class Evaluator:
         if isinstance(base, ChainNode):
             if attr == "bijections":
                 return base.alias_of if base.alias_of is not None else base.children
-            if attr in self.cls.methods or self._inherited(attr):
-                owner, fn = self.prog.method(self.cls.qualname, attr)
-                decos = [ast.unparse(d) for d in fn.decorator_list]
-                if "property" in decos or any(d.endswith("cached_property") for d in decos):
-                    return self.apply(_Closure(fn, {}, self, base), [], {})
-                if "staticmethod" in decos:
-                    return _Closure(fn, {}, self)
-                if decos:
-                    raise Unsupported(f"decorated method {attr}")
-                return _Closure(fn, {}, self, base)
+            if self._inherited(base, attr):
+                return self._method_attr(base, attr)
             if attr == "__class__":
                 return CHAIN_T
             raise Unsupported(f"attribute Chain.{attr}")
@@ -507,30 +551,56 @@ class Evaluator:
             return self.qualified(base[1] + "." + attr)
         if isinstance(base, tuple) and base[:2] == ("builtin", "itertools.chain") and attr == "from_iterable":
             return ("builtin", "chain.from_iterable")
-        if isinstance(base, _TypeTok) and base is CHAIN_T:
-            owner, fn = self.prog.method(self.cls.qualname, attr)
+        if isinstance(base, TransNode):
+            if attr == "base_dist":
+                return base.base
+            if attr == "bijection":
+                return base.bijection
+            if attr == "__class__":
+                return ("builtin", "Transformed")
+            if self._inherited(base, attr):
+                return self._method_attr(base, attr)
+            raise Unsupported(f"attribute Transformed.{attr}")
+        if isinstance(base, _TypeTok) and base in (CHAIN_T, TRANS_T):
+            k = self.prog.cls(CHAIN_Q if base is CHAIN_T else ATRANS_Q)
+            owner, fn = self.prog.method(k.qualname, attr)
             decos = [ast.unparse(d) for d in fn.decorator_list]
             if "staticmethod" in decos:
-                return _Closure(fn, {}, self)
+                return _Closure(fn, {}, self, module=owner.module)
             if "classmethod" in decos:
-                return _Closure(fn, {}, self, CHAIN_T)
-            return _Closure(fn, {}, self)
+                return _Closure(fn, {}, self, base, module=owner.module)
+            return _Closure(fn, {}, self, module=owner.module)
         if isinstance(base, (Leaf, Unwrapped)):
             raise Unsupported(f"attribute {attr} of a member bijection")
         raise Unsupported(f"attribute {attr}")
 
-    def _inherited(self, attr):
+    def _inherited(self, node, attr):
         try:
-            self.prog.method(self.cls.qualname, attr)
+            self.prog.method(self.class_of(node).qualname, attr)
             return True
         except Exception:  # noqa: BLE001
             return False
+
+    def _method_attr(self, node, attr):
+        k = self.class_of(node)
+        owner, fn = self.prog.method(k.qualname, attr)
+        decos = [ast.unparse(d) for d in fn.decorator_list]
+        clo = _Closure(fn, {}, self, node, module=owner.module)
+        if "property" in decos or any(d.endswith("cached_property") for d in decos):
+            return self.apply(clo, [], {})
+        if "staticmethod" in decos:
+            return _Closure(fn, {}, self, module=owner.module)
+        if decos:
+            raise Unsupported(f"decorated method {attr}")
+        return clo
 
     def isinstance_(self, obj, typ):
         if isinstance(typ, tuple) and not (typ and typ[0] in ("builtin", "module", "bound")):
             return any(self.isinstance_(obj, t) for t in typ)
         if typ is CHAIN_T:
             return isinstance(obj, ChainNode)
+        if typ is TRANS_T or typ == ("builtin", "Transformed"):
+            return isinstance(obj, TransNode)
         if typ is WRAP_T:
             return isinstance(obj, Leaf) and obj.wrapped
         if isinstance(typ, tuple) and typ[0] == "builtin" and typ[1] in ("list", "tuple"):
@@ -616,6 +686,13 @@ class Evaluator:
             n = f[1]
             if n == "isinstance":
                 return self.isinstance_(args[0], args[1])
+            if n == "Transformed":
+                b = dict(zip(("base_dist", "bijection"), args))
+                b.update(kwargs)
+                if set(b) != {"base_dist", "bijection"} or not isinstance(b["base_dist"], (BaseLeaf, TransNode)) or \
+                        not isinstance(b["bijection"], (Leaf, Unwrapped, ChainNode)):
+                    raise Unsupported("Transformed(...) of unmodelled arguments")
+                return TransNode(b["base_dist"], b["bijection"])
             if n == "type":
                 raise Unsupported("type()")
             if n == "unwrap":
@@ -696,7 +773,7 @@ def _as_load(t):
 
 def _own_nodes(fn):
     """Nodes of fn's body that belong to fn itself (not to nested function definitions)."""
-    stack = list(fn.body) if not isinstance(fn, ast.Lambda) else [fn.body]
+    stack = [x for x in fn.body if not isinstance(x, ast.FunctionDef)] if not isinstance(fn, ast.Lambda) else [fn.body]
     while stack:
         n = stack.pop()
         yield n
